@@ -168,6 +168,10 @@ def generators(ctx, RA, RG, P) -> None:
                             yloc,
                             c,
                         )
+        if not kinds_seen:
+            # the walk is there but its listings are consumed in a way these rules do not follow (collected into a container and
+            # iterated later, paired with flags, ...): not decided, rather than reported as "no descendant is named"
+            raise AnalysisError(f"{gname}: the os.walk loop was found but no loop over its directory / file listings (structure not recognised)")
         ctx.check(kinds_seen == {"dirs", "files"}, RG, f"{gname} loops over both lists of the walk", f"loops found over {sorted(kinds_seen)}", loc)
         ctx.sample({"generator": gname, "inner_loops": [k for _, k in inner]})
 
